@@ -126,6 +126,9 @@ def rules(t, u, hist_tbl):
     # G5 non-aggregated non-grouping column in summarize
     for pos, e in positions(lambda: t.b, t, "num"):
         add(f"G5/non_aggregated/{pos}", "column neither aggregated nor grouping", (E.FunctionTypeError,), lambda e=e: T >> pdt.group_by(t.a) >> pdt.summarize(x=e()))
+    add("G5/non_aggregated_in_case_condition", "bare column in the condition of a case expression whose value is aggregated", (E.FunctionTypeError,), lambda: T >> pdt.summarize(x=pdt.when(t.f).then(t.a.max()).otherwise(0)))
+    add("G1/filter_int_literal", "filter(1)", (E.DataTypeError,), lambda: T >> pdt.filter(1))
+    add("G1/filter_none_literal", "filter(None)", (E.DataTypeError,), lambda: T >> pdt.filter(None))
     add("G5/non_aggregated_mixed", "aggregate + bare column", (E.FunctionTypeError,), lambda: T >> pdt.group_by(t.a) >> pdt.summarize(x=t.b.max() + t.b))
     # G6 unknown / hidden columns
     add("G6/unknown_C", "C.nope", (E.ColumnNotFoundError,), lambda: T >> pdt.mutate(x=pdt.C.nope + 1))
@@ -142,6 +145,9 @@ def rules(t, u, hist_tbl):
     # G7 duplicate names
     add("G7/rename_collision", "rename onto an existing name", (ValueError,), lambda: T >> pdt.rename({"a": "s"}))
     add("G7/rename_two_to_one", "two columns renamed to one name", (ValueError,), lambda: T >> pdt.rename({"a": "zz", "s": "zz"}))
+    add("G7/join_suffix_collision_with_renamed_right_column", "user suffix produces an existing name from a RENAMED right column", (ValueError,), lambda: (T >> pdt.mutate(v_x=t.a)) >> pdt.join(u >> pdt.rename({"z": "v"}), t.a == u.a, "inner", suffix="_x"))
+    add("G6/summarized_away_in_on", "column dropped by summarize used in a join condition", (ValueError, E.ColumnNotFoundError), lambda: T >> pdt.group_by(t.a) >> pdt.summarize(m=t.b.max()) >> pdt.join(u, t.s == u.s if "s" in u else t.b == u.a, "inner"))
+    add("G6/hidden_by_union_in_on", "column of the right operand of a union used in a join condition", (ValueError, E.ColumnNotFoundError), lambda: (lambda r: ((T >> pdt.select(t.a)) >> pdt.union(r >> pdt.select(r.a))) >> pdt.join(u, r.b == u.a, "inner"))(t >> pdt.alias("r9")))
     add("G7/join_suffix_collision", "user suffix produces an existing name", (ValueError,), lambda: (T >> pdt.mutate(a_x=t.a)) >> pdt.join(u, t.a == u.a, "inner", suffix="_x"))
     # G8 grouped / same-origin / different-backend joins and unions
     add("G8/join_grouped_left", "join of a grouped table", (ValueError,), lambda: T >> pdt.group_by(t.a) >> pdt.join(u, t.a == u.a, "inner"))
